@@ -1,7 +1,7 @@
 """C04 - round trip preserves tetrahedral and double-bond stereochemistry."""
 from vmon import env, hooks, scopes, tablegen
 from vmon.hooks import MON
-from vmon.molgen import random_tree_mol, spell
+from vmon.molgen import random_tree_mol, spell, symbol_family_smiles
 from vmon.roundtrip import roundtrip
 
 ID = "C04"
@@ -23,7 +23,7 @@ def shards(tier):
 def floors(tier):
     return {"roundtrips_ok": 3000, "chiral_centres": 5000, "chiral.opens_ring": 500, "chiral.closes_ring": 500,
             "chiral.opens_and_closes": 100, "chiral.first_atom": 50, "chiral.with_H": 300, "chiral.multi_ring>=2": 200,
-            "chiral.ring_digit_after_branch": 200, "marks.chain": 500, "marks.ring_open_end": 100, "marks.ring_close_end": 100, "dataset_stereo_ok": 100}
+            "chiral.ring_digit_after_branch": 200, "marks.chain": 500, "marks.ring_open_end": 100, "marks.ring_close_end": 100, "dataset_stereo_ok": 100, "stereo_ring_family_ok": 60}
 
 
 def _classify(ctx, mi):
@@ -100,6 +100,14 @@ def run(ctx):
                 ctx.count("roundtrips_ok")
                 nt = _classify(ctx, mi)
             ctx.case(s, nt, sample={"smiles": s, "selfies": x, "out": None} if nt else None)
+
+    for s, tag in list(symbol_family_smiles(rng))[ctx.shard::ctx.nshards]:
+        if "stereo" not in tag:
+            continue
+        st, mi, mo, x = roundtrip(ctx, sf, s, table, True, "symbol-family:" + tag)
+        if st == "ok":
+            ctx.count("stereo_ring_family_ok")
+        ctx.case(s, st == "ok")
 
     # dataset SMILES carry real-world stereo
     t = dict(tablegen.PRESETS["hypervalent"], **{"P": 7, "P-1": 8, "P+1": 6, "?": 12})
